@@ -91,6 +91,15 @@ def events(rng, homs, thorough):
             yield "unittwist2", {"a": a, "n": nn}, float(nn), (lambda A=A: b.unittwist2(A)), "base.unittwist2"
             yield "unittwist2_norm", {"a": a, "n": nn}, None, \
                 (lambda A=A, nn=nn, s=s: np.r_[np.asarray(b.unittwist2_norm(A)[0], dtype=float) * nn, b.unittwist2_norm(A)[1] / s]), "base.unittwist2_norm"
+    # angle wrapping (a vector helper): multiples of a quarter turn up to +-20 turns, scalar, two-argument and array forms
+    for k in range(-81, 82):
+        if k % 4 == 2:
+            continue
+        yield "angdiff1", {"k": k}, 2 / math.pi, (lambda k=k: [b.angdiff(k * math.pi / 2)]), "base.angdiff(a)"
+        yield "angdiff1", {"k": k}, 2 / math.pi, (lambda k=k: [np.asarray(b.angdiff(np.array([k * math.pi / 2, 0.3]))).ravel()[0]]), "base.angdiff(array)"
+        for m in (0, 3, -9, 40):
+            if (k - m) % 4 != 2:
+                yield "angdiff2", {"k": k, "m": m}, 2 / math.pi, (lambda k=k, m=m: [b.angdiff(k * math.pi / 2, m * math.pi / 2)]), "base.angdiff(a,b)"
     for a in vecs6:
         M = np.eye(4) + b.skewa(np.array(a, dtype=float))
         yield "tr2delta", {"a": [int(x) for x in M.ravel()]}, 1.0, (lambda M=M: b.tr2delta(M)), "base.tr2delta"
